@@ -15,5 +15,9 @@ _here = os.path.dirname(os.path.abspath(__file__))
 for _p in sorted(glob.glob(os.path.join(_here, 'props', 'C*.py'))):
     _spec = importlib.util.spec_from_file_location('prop_' + os.path.basename(_p)[:-3], _p)
     _m = importlib.util.module_from_spec(_spec)
-    _spec.loader.exec_module(_m)
-    PROPS[os.path.basename(_p)[:-3]] = _m.SPEC
+    try:
+        _spec.loader.exec_module(_m)
+        PROPS[os.path.basename(_p)[:-3]] = _m.SPEC
+    except Exception as _e:      # a broken spec file affects its own property only
+        import sys as _sys
+        print('registry: cannot load %s: %r' % (_p, _e), file=_sys.stderr)
